@@ -146,7 +146,8 @@ services:
 	// every substitution operator, in two different mixes (tables chosen per template must not be shared between loads)
 	opsDoc := func(forms []string) string {
 		var sb strings.Builder
-		sb.WriteString("services:\n  app:\n    image: img\n    labels:\n")
+		fmt.Fprintf(&sb, "x-meta: {doc: %q, n%d: v}\nx-owner: {owner: %q, tags: {t%d: %q}}\n", forms[0], len(forms), forms[1], len(forms), forms[0])
+		sb.WriteString("services:\n  app:\n    image: img\n    x-plain: {owner: svc}\n    labels:\n")
 		for i := 0; i < 24; i++ {
 			fmt.Fprintf(&sb, "      l%d: \"%s\"\n", i, strings.ReplaceAll(forms[i%len(forms)], "%d", fmt.Sprint(i)))
 		}
@@ -169,6 +170,14 @@ services:
 	return fx, nil
 }
 
+// c19Known is a caller-registered extension table shared by all loads (values of map, pointer and struct kind).
+type c19Meta struct {
+	Owner string            `yaml:"owner" json:"owner"`
+	Tags  map[string]string `yaml:"tags" json:"tags"`
+}
+
+var c19Known = map[string]any{"x-meta": map[string]string{}, "x-owner": &c19Meta{}, "x-plain": c19Meta{}}
+
 func c19LoadDigest(f c19Fixture) string {
 	var cfs []types.ConfigFile
 	for _, n := range f.Files {
@@ -179,7 +188,10 @@ func c19LoadDigest(f c19Fixture) string {
 		env[k] = v
 	}
 	p, err := loader.LoadWithContext(context.Background(), types.ConfigDetails{WorkingDir: f.Dir, ConfigFiles: cfs, Environment: env},
-		func(o *loader.Options) { o.SetProjectName("proj", true) })
+		func(o *loader.Options) {
+			o.SetProjectName("proj", true)
+			o.KnownExtensions = c19Known // one table registered once by the application and used by every load
+		})
 	if err != nil {
 		return "error: " + err.Error()
 	}
